@@ -204,6 +204,40 @@ func cmdCheck(args []string) int {
 		}(i, c)
 	}
 	wg.Wait()
+	// second chance for obligations that ran out of time while the machine was saturated: re-run them a few
+	// at a time with a larger budget (a timeout under load must not turn into an alarm)
+	var retry []struct {
+		fr *FuncResult
+		o  *Obl
+	}
+	for _, fr := range results {
+		for _, o := range fr.Obls {
+			if o.Expect != "sat" && (o.Status == "timeout" || o.Status == "unknown" || o.Status == "error") {
+				retry = append(retry, struct {
+					fr *FuncResult
+					o  *Obl
+				}{fr, o})
+			}
+		}
+	}
+	if len(retry) > 0 {
+		rsem := make(chan struct{}, 4)
+		var rw sync.WaitGroup
+		for _, x := range retry {
+			rw.Add(1)
+			go func(fr *FuncResult, o *Obl) {
+				defer rw.Done()
+				rsem <- struct{}{}
+				defer func() { <-rsem }()
+				q := buildQuery(fr.Gen, o)
+				r := solve(q, dir, o.Name+"-retry", timeout*4, true, "")
+				if r.status == "unsat" || r.status == "sat" {
+					o.Status, o.Backend, o.Time, o.Output = r.status, r.backend, r.time, r.output
+				}
+			}(x.fr, x.o)
+		}
+		rw.Wait()
+	}
 	rep := report(p, *prop, *tier, seed, results, loadT, time.Since(t0).Seconds(), *verbose, !*noEvidence)
 	return rep
 }
